@@ -8,6 +8,7 @@ import (
 	"math/rand"
 	"os"
 	"path/filepath"
+	"regexp"
 	"strconv"
 	"strings"
 	"sync"
@@ -412,8 +413,8 @@ func (ck *checker) partB() {
 
 	// the deterministic batch list
 	batchSize := 250
-	nGrammar := ctx.Pick(14000, 2200000)
-	nBytes := ctx.Pick(5000, 700000)
+	nGrammar := ctx.Pick(14000, 700000)
+	nBytes := ctx.Pick(5000, 250000)
 	type batch struct {
 		idx    int
 		kind   string
@@ -490,7 +491,7 @@ type fuzzSession struct {
 
 func (ck *checker) newSession(rng *rand.Rand, strict bool) *fuzzSession {
 	for attempt := 0; attempt < 3; attempt++ {
-		s := ck.startServer()
+		s := ck.startCapped()
 		ctl, err := respc.Dial(s.Addr(), 5*time.Second)
 		if err != nil {
 			s.Kill9()
@@ -690,14 +691,15 @@ func (ck *checker) runBatch(bidx int, inputs []*fuzzInput, rng *rand.Rand, logf 
 			case byTimeout:
 				// wedge? the canary decides between server and machine
 				if can.answers() {
-					word := "bytes:" + in.Tmpl
+					fs.s.Abort()
+					dumpb, _ := os.ReadFile(fs.s.Stderr)
+					stacks, handler := lockHolders(string(dumpb))
+					word := "handler:" + handler
 					if in.Args != nil {
 						word = wire.CommandWord(in.Args)
 					}
-					fs.s.Abort()
-					dump := fs.s.StderrTail(1 << 20)
 					ck.report("wedge:"+word, fmt.Sprintf("the bystander's write %q was not answered within %v after input %s %q (canary process answered a write within 1 s): a request never returns while holding the server lock", fs.by.last, ioTimeout, in.Gen, abbreviate([][]string{in.Args})),
-						map[string]any{"recent_inputs": replayOf(recent), "goroutines_holding_lock": lockHolders(dump)})
+						map[string]any{"recent_inputs": replayOf(recent), "handler": handler, "goroutines_in_handlers": stacks})
 					ctx.Count("wedges", 1)
 					q.mu.Lock()
 					q.words[word] = true
@@ -755,22 +757,32 @@ func clipTail(s string, n int) string {
 	return s
 }
 
+var cmdFnRe = regexp.MustCompile(`server\.\(\*Server\)\.(cmd\w+)`)
+
 // lockHolders extracts from a goroutine dump the stacks that are inside a
-// command handler (candidates for the request that never returned).
-func lockHolders(dump string) []string {
-	var out []string
+// command handler and not waiting for the server lock (candidates for the
+// request that never returned) and the handler's name.
+func lockHolders(dump string) (stacks []string, handler string) {
 	for _, g := range strings.Split(dump, "\n\n") {
-		if strings.Contains(g, "handleInputCommand") && !strings.Contains(g, "sync.(*RWMutex)") && !strings.Contains(g, "rwspinlock") {
-			out = append(out, clipTail(g, 1800))
+		if strings.Contains(g, "handleInputCommand") && !strings.Contains(g, "sync.(*RWMutex)") && !strings.Contains(g, "rwspinlock") && !strings.Contains(g, "sync.runtime_Semacquire") {
+			if handler == "" {
+				if m := cmdFnRe.FindStringSubmatch(g); m != nil {
+					handler = strings.ToUpper(strings.TrimPrefix(m[1], "cmd"))
+				}
+			}
+			if len(g) > 2500 {
+				g = g[:2500] + "..."
+			}
+			stacks = append(stacks, g)
 		}
 	}
-	if len(out) == 0 {
-		out = append(out, clipTail(dump, 4000))
+	if len(stacks) == 0 {
+		stacks = append(stacks, clipTail(dump, 3000))
 	}
-	if len(out) > 3 {
-		out = out[:3]
+	if len(stacks) > 3 {
+		stacks = stacks[:3]
 	}
-	return out
+	return stacks, handler
 }
 
 // sendInput sends one input on its own connection, half-closes and reads the
